@@ -12,7 +12,8 @@
                                                    interface{} destination (template nil)
      builder/session.go, iterator/session.go       type cache with a placeholder that waits
                                                    on a WaitGroup (GetBuilderGeneratorForType,
-                                                   GetIteratorForType)
+                                                   GetIteratorForType); since commit d2cf257 a
+                                                   failed build removes its placeholder
      iterator/iterator_root.go                     Iterate (recursion over the value)
      cbe/decoder.go Decode, runMainDecodeLoop      main decode loop with its byte-consumption
                                                    measure, on a fragment of the type codes
@@ -178,8 +179,9 @@ Definition artificially_terminate (st : stack) : outcome stack :=
 (** * Type caches of a session (builder.Session / iterator.Session) *)
 
 (* GetBuilderGeneratorForType / GetIteratorForType: a miss stores a placeholder
-   that waits on a WaitGroup, then builds the real entry; when building panics
-   (unsupported kind) the placeholder stays and is never released. *)
+   that waits on a WaitGroup, then builds the real entry.  When building panics
+   (unsupported kind) the deferred function deletes the placeholder and releases
+   the WaitGroup (commit d2cf257): the cache is left as it was. *)
 Inductive slot := Ready | Placeholder.
 Definition cache := list (N * slot).          (* type id -> slot *)
 
@@ -192,8 +194,20 @@ Fixpoint cache_find (c : cache) (t : N) : option slot :=
 Inductive lookup := Found | Waits | BuildPanics.
 
 (* [supported]: defaultBuilderGeneratorForType / getDefaultIteratorForType has a
-   case for every kind reachable from the type. *)
+   case for every kind reachable from the type.  [Waits]: calling a stored
+   placeholder blocks on its WaitGroup; no sequence of calls from an empty cache
+   stores one (EntryProofs.run_call_cache). *)
 Definition cache_get (c : cache) (t : N) (supported : bool) : cache * lookup :=
+  match cache_find c t with
+  | Some Ready => (c, Found)
+  | Some Placeholder => (c, Waits)
+  | None => if supported then ((t, Ready) :: c, Found) else (c, BuildPanics)
+  end.
+
+(* The protocol before commit d2cf257: the placeholder of a failed build stayed
+   in the cache with its WaitGroup never released; kept to state what the repair
+   changed (EntryProofs.old_cache_poisoned). *)
+Definition cache_get_old (c : cache) (t : N) (supported : bool) : cache * lookup :=
   match cache_find c t with
   | Some Ready => (c, Found)
   | Some Placeholder => (c, Waits)
@@ -418,8 +432,8 @@ Definition decode_body (fails : bool) : outcome unit := if fails then Panic else
      if err != nil { receiver.OnError() }              ArtificiallyTerminate
      decoded = builder.GetBuiltObject()
    [c]: the session's cache before the call, [t]: id of the template type.
-   A placeholder left by an earlier failed call is only waited on when the first
-   object arrives (topLevelBuilder calls its generator on every object). *)
+   A stored placeholder would only be waited on when the first object arrives
+   (topLevelBuilder calls its generator on every object). *)
 Definition has_object (tr : list sevent) : bool :=
   match tr with [] => false | SEnd :: _ => false | _ => true end.
 
@@ -534,32 +548,14 @@ Definition ep_eqb (a b : entry_point) : bool :=
   | _, _ => false
   end.
 
-(* The inputs on which the model claims the property. *)
-Definition call_supported (cl : call) : bool :=
-  match cl with
-  | CallDecode _ _ _ => true
-  | CallUnmarshal _ _ _ sup _ => sup
-  | CallMarshal v => v_supported v
-  end.
-
+(* The inputs on which the model claims the property: marshaled values do not
+   reach themselves. *)
 Definition call_acyclic (cl : call) : bool :=
   match cl with CallMarshal v => negb (v_cyclic v) | _ => true end.
 
-Definition call_nonempty_for (e : entry_point) (cl : call) : bool :=
-  match cl with
-  | CallDecode _ len _ => negb (ep_eqb e CEDecoder_DecodeDocument) || negb (len =? 0)
-  | _ => true
-  end.
-
 Definition good (o : outcome unit) : Prop := o <> Panic /\ o <> Hang.
 
-(* Sessions on which the property is claimed: non-empty documents for the
-   universal DecodeDocument, acyclic values, and either a fresh object per call
-   (one-shot functions) or supported types only. *)
-Definition benign (e : entry_point) (calls : list call) : Prop :=
-  forallb (call_nonempty_for e) calls = true /\
-  forallb call_acyclic calls = true /\
-  (fresh_per_call e = true \/ forallb call_supported calls = true).
+Definition benign (calls : list call) : Prop := forallb call_acyclic calls = true.
 
 (* Witness values for the refutations. *)
 Definition unsupported_value : value_desc := {| v_type := 7; v_supported := false; v_cyclic := false |}.
